@@ -61,6 +61,7 @@ class Air:
         self.keep_log = True
         self.n_packets = 0
         self.carriers = []  # radios emitting a constant carrier
+        self.promisc = None  # Phantom answering every otherwise unanswered unicast (A: stub)
 
     def add(self, radio):
         radio.air = self
@@ -86,7 +87,42 @@ class Air:
                 out = r._hear(pkt)
                 if out is not None:
                     pkt.outcomes.append((r.name, out))
+        if (self.promisc is not None and pkt.kind == "data" and not pkt.noack
+                and not any(o.startswith(("rx:", "dup:")) for _, o in pkt.outcomes)):
+            self.promisc.answer(self, pkt)
         pkt.src._tx_air_done(pkt)
+
+
+class Phantom:
+    """promiscuous-ACK stub (DESIGN 2.4): acknowledges any unicast nobody accepted"""
+    name = "phantom"
+
+    def __init__(self):
+        self.acked = []
+
+    def answer(self, air, pkt):
+        ack = Packet()
+        ack.src = self
+        ack.kind = "ack"
+        ack.ch, ack.rate, ack.aw, ack.addr, ack.pid = pkt.ch, pkt.rate, pkt.aw, pkt.addr, pkt.pid
+        ack.noack = False
+        ack.dpl = True
+        ack.payload = b""
+        ack.crclen = pkt.crclen
+        ack.t0 = pkt.t1 + T_SETTLE
+        ack.t1 = ack.t0 + airtime_ns(ack.rate, ack.aw, 0, ack.crclen)
+        ack.attempt = pkt.attempt
+        ack.for_pkt = pkt
+        ack.src_seq = 0
+        pkt.ack = ack
+        self.acked.append(pkt)
+        air.world.at(ack.t0, air.transmit, ack)
+
+    def _tx_air_done(self, pkt):
+        pass
+
+    def _hear(self, pkt):
+        return None
 
 
 class FifoEntry:
